@@ -68,7 +68,7 @@ func init() {
 			"subscribers {static, late joiners, early leavers, 1-3 churners that keep subscribing and unsubscribing fresh channels while the messages flow, late joiners in pairs, joiner storms of 24-40 subscribers} with speed profiles x delay injected between pop and dispatch (wrapping distributor) x GOMAXPROCS; oracle: every configuration - received subset of published, no id twice; " +
 			"lossless configurations (BufferSize 0; channel / unlimited queue / unlimited deque) - every message whose Publish was called after a subscriber's Subscribe returned is received by it (decided at quiescence when missing); " +
 			"single dispatch worker - every subscriber preserves each publisher's order, all subscribers agree on one order, and (lossless) per publisher no subscriber, leaving ones included, has a gap between the first message published after its Subscribe returned and the last one it received. distinct_nontrivial = distinct configurations of runs with >= 2 subscribers, >= 2 publishers and >= 2 publisher interleavings in the witness order",
-		assumptions: append([]string{"early leavers are checked for the universal clauses only (DESIGN 7d)",
+		assumptions: append([]string{"early leavers are checked for the universal clauses and for gap-freeness up to the last message they received (DESIGN 7d)",
 			"a Deque-backed broker with >= 2 dispatch workers never becomes quiescent (idle dispatchers signal each other): for it only met expectations are decided, unmet ones are counted as skipped"}, commonAssumptions...),
 		floorEvals:    100,
 		floorDistinct: 20,
